@@ -62,7 +62,29 @@ type State struct {
 }
 
 // epochOf: which epoch's base array a heap key reads when it has not been written since.
+// finalKeys: heap keys (type#field) declared `final`: assigned only while the object is
+// constructed / injected, so reads are not affected by havoc (always the entry array).
+var finalKeys = map[string]bool{}
+
+func isFinalKey(key string) bool {
+	if len(finalKeys) == 0 {
+		return false
+	}
+	if finalKeys[key] {
+		return true
+	}
+	for f := range finalKeys {
+		if strings.HasPrefix(key, f+".") {
+			return true
+		}
+	}
+	return false
+}
+
 func (st *State) epochOf(key string) string {
+	if isFinalKey(key) {
+		return "0"
+	}
 	if strings.HasPrefix(key, "G$") {
 		if st.gepoch == "" {
 			return "0"
@@ -144,6 +166,9 @@ func (ex *Exec) heapArrSh(st *State, key string, leafSort string, sh *Shape) str
 	ex.eng.regHeap(key, srt)
 	if t, ok := st.heap[key]; ok {
 		return t
+	}
+	if isFinalKey(key) {
+		ex.assumption("field " + key + " is final: assigned only while its object is constructed or injected, never afterwards (a write in code under contract is a failed obligation)")
 	}
 	name := ex.eng.smt.named("H"+st.epochOf(key)+"_"+key, srt)
 	if st.epoch == "0" && sh != nil && !ex.eng.refAxDone[name] {
